@@ -142,7 +142,9 @@ impl Connection {
             let _ = self.conn_closed_tx.send(self.peer).await;
         }
 
-        self.event_handle.report_notification_stream_closed(self.peer).await;
+        self.event_handle
+            .report_notification_stream_closed(self.peer, Some(self.stream_id))
+            .await;
     }
 
     pub async fn start(mut self) {
